@@ -81,7 +81,7 @@ let parse_spec s : cspec =
   | [nm; st; ex; rk] ->
     { c_name = n_of_int (int_of_string nm);
       c_stop = (if st = "U" then UntilRunDone else NonBlocking);
-      c_exit = (match ex with "S" -> OnSignal | "F" | "E" -> Free | _ -> Never);
+      c_exit = (match ex with "S" -> OnSignal | "F" | "E" | "X" -> Free | _ -> Never);
       c_rk = (match rk with "W" -> RWC | "P" -> RPlain | _ -> RNone) }
   | _ -> failwith "spec"
 
